@@ -103,16 +103,22 @@ theorem parse_serialize (plus : Bool) (a : Annotation) (hc : canon a = true) :
     have := parseChains_allAA none (serialize plus a) hun (serialize_ne_nil plus a hne)
     rw [hchain] at this
     simp only [Except.ok.injEq, List.cons.injEq, Prod.mk.injEq, and_true] at this
-    rw [this.1]
+    rw [← this]
   · rw [hchain]
 
-example : canon { seq := "PEPTIDE".toList, unknown := some [⟨.int 1, 1⟩], nterm := some [⟨.int 2, 1⟩],
+/-- non-vacuity: the object denoted by `[1]?[2]-(PEP)[3]^2TIDE/2[+2Na+,+H+]` -/
+def exampleAnnotation : Annotation :=
+  { seq := "PEPTIDE".toList, unknown := some [⟨.int 1, 1⟩], nterm := some [⟨.int 2, 1⟩],
     intervals := some [⟨0, 3, false, some [⟨.int 3, 2⟩]⟩], charge := some 2,
-    adducts := some [⟨.str "+2Na+,+H+".toList, 1⟩] } = true := by decide +kernel
+    adducts := some [⟨.str "+2Na+,+H+".toList, 1⟩] }
 
-example : serialize false { seq := "PEPTIDE".toList, unknown := some [⟨.int 1, 1⟩], nterm := some [⟨.int 2, 1⟩],
-    intervals := some [⟨0, 3, false, some [⟨.int 3, 2⟩]⟩], charge := some 2,
-    adducts := some [⟨.str "+2Na+,+H+".toList, 1⟩] } = "[1]?[2]-(PEP)[3]^2TIDE/2[+2Na+,+H+]".toList := by decide +kernel
+example : canon exampleAnnotation = true := by decide +kernel
+example : serialize false exampleAnnotation = "[1]?[2]-(PEP)[3]^2TIDE/2[+2Na+,+H+]".toList := by decide +kernel
+example : canon { seq := "PEP".toList, labile := some [⟨.flt "15.995".toList, 1⟩],
+                  static := some [⟨.str "[+57.02]@C".toList, 1⟩], isotope := some [⟨.str "13C".toList, 1⟩],
+                  internal := some [(0, [⟨.str "Formula:[13C2]H4".toList, 2⟩]), (2, [⟨.int (-1), 1⟩])],
+                  intervals := some [⟨0, 1, true, none⟩, ⟨1, 3, false, some [⟨.str "Oxidation|INFO:x".toList, 1⟩]⟩],
+                  cterm := some [⟨.str "Glycan:Hex".toList, 1⟩], charge := some (-2) } = true := by decide +kernel
 
 /-- **Serializing is a fixpoint after one round trip** (corollary): `serialize(parse(serialize(a))) == serialize(a)`. -/
 theorem serialize_fixpoint (plus : Bool) (a : Annotation) (hc : canon a = true) :
